@@ -308,7 +308,10 @@ def random_meta_attrs(rng, t, big=False):
     if t in metas.TEXT_TYPES:
         attr = metas.META[t][1][0][0]
         ln = rng.choice(PAYLOAD_LENS + (BIG_LENS if big else []))
-        return {attr: ''.join(chr(rng.choice([65, 97, 32, 0xe9, 0xff, 1, 0x7f, 0x80])) for _ in range(ln))}
+        txt = ''.join(chr(rng.choice([65, 97, 32, 0xe9, 0xff, 1, 0x7f, 0x80])) for _ in range(ln))
+        if rng.random() < 0.12:
+            txt = '\xef\xbb\xbf' + txt + rng.choice(['', 'La la', '\x00'])       # looks like a UTF-8 signature in latin1 / cp1252
+        return {attr: txt}
     if t == 'sequence_number':
         return {'number': rng.choice([0, 1, 255, 256, 65535, rng.randint(0, 65535)])}
     if t == 'channel_prefix':
@@ -358,6 +361,19 @@ def random_track(rng, nmax=40, big=False):
         tr.append((2, 'meta', 'end_of_track', {}))
         tr.append((3, 'meta', 'end_of_track', {}))
     return tr
+
+
+def make_utf8(rng, desc):
+    """Mark the file as a utf-8 file and give some of its texts characters only such a charset can carry (U+FEFF first)."""
+    desc['charset'] = 'utf-8'
+    for tr in desc['tracks']:
+        for i, ev in enumerate(tr):
+            if ev[1] == 'meta' and ev[2] in metas.TEXT_TYPES and rng.random() < 0.5:
+                attr = metas.META[ev[2]][1][0][0]
+                d = dict(ev[3])
+                d[attr] = rng.choice(['\ufeff', '\ufeff\ufeff', 'x\ufeff', '\u266f', '']) + d[attr]
+                tr[i] = (ev[0], ev[1], ev[2], d)
+    return desc
 
 
 def random_file(rng, big=False):
